@@ -23,7 +23,7 @@ import c16_objmodel as om
 INST = os.path.join(HERE, "c18_inst.C")
 LIB_DIRS = ["src/kernel/gmp++", "src/kernel/integer", "src/kernel/rational", "src/kernel/memory", "src/kernel/system", "src/kernel/bstruct"]
 SKIP_C = {"gmp++_int.C"}              # only #includes the other gmp++_int_*.C files
-VERSION = "c18-values-v11"
+VERSION = "c18-values-v12"
 
 # ---- what a write to a static may be.  Anything that is not matched here is reported (site = the function, klass = the statics).
 # (regular expression on "Class::function", set of statics or None = any, category, reason)
@@ -409,7 +409,8 @@ def emit_coq(res):
     lines.append("(* the operations that write process-wide state: exactly the documented writers (setters of the documented switches, random")
     lines.append("   generators, allocator, library start-up); re-decided by vm_compute *)")
     lines.append("Definition Decide_values_stmt : Prop := value_static_writers value_ops =\n  %s." % om.coq_list(
-        ["(%s, %s)" % (om.coq_str(o["uid"]), om.coq_list([om.coq_str(x) for x in sorted(set(writes_of(o) + random_of(o)))])) for o in res["ops"] if writes_of(o) or random_of(o)]).replace("; (", ";\n   ("))
+        ["(%s, %s)" % (om.coq_str(o["uid"]), om.coq_list([om.coq_str(t[1]) for t in o["effects"] if t[0] in ("WOwn", "WRandom", "WStaticLocal", "WGlobal")]))
+         for o in res["ops"] if writes_of(o) or random_of(o)]).replace("; (", ";\n   ("))
     lines.append("Lemma decide_values : Decide_values_stmt.")
     lines.append("Proof. vm_compute. reflexivity. Qed.")
     lines.append("")
